@@ -86,7 +86,7 @@ def run(prop: str, tier: str, seed: int) -> int:
                         "C18": c.tags.get("c18")}[prop]
                 if gkey is None or gkey not in groups:
                     continue
-                ok, errors = g.confirm_alone(c)
+                ok, errors, how = g.confirm_dropped(c)
                 if not ok:
                     violations.append(Violation(
                         prop, "%s|does-not-compile|%s|%s|%s" % (prop, c.decl.key(), c.cfg.key(), c.context),
